@@ -55,6 +55,7 @@ Ok(r) == CASE r.k = "enc" -> EncOk(r)
            [] r.k = "frame" -> FrameOk(r)
            [] r.k = "framecut" -> FrameCutOk(r)
            [] r.k = "seq" -> SeqOk(r)
+           [] r.k = "framebig" -> r.rerr = "nil" /\ r.rpayOK /\ r.rlen = r.plen   \* header codec + exactly `length` payload bytes
            [] r.k = "conc" -> r.ok       \* concurrent goroutines each got their own headers, byte for byte
            [] OTHER -> FALSE
 
